@@ -141,12 +141,12 @@ def run_sequence(impl, seq, stats, tmp):
                 # creating the generator must not touch the transport whatever the state; whether it may raise right away is not specified
                 try:
                     if impl == "sync":
-                        pending_gen[0] = sess.dev.streaming_shell("t", decode=False)
+                        pending_gen[0] = sess.dev.streaming_shell("deferred-cmd", decode=False)
                     else:
-                        pending_gen[0] = sess.dev.streaming_shell("t", decode=False)
+                        pending_gen[0] = sess.dev.streaming_shell("deferred-cmd", decode=False)
                 except Exception:  # noqa
                     pending_gen[0] = None
-                sim.scripts[b"shell:t"] = [b"line1", b"line2"]
+                sim.scripts[b"shell:deferred-cmd"] = [b"line1", b"line2"]
                 if len(sess.core.written) != before_written:
                     viol.append({"mechanism": "bytes-written", "detail": "%s: creating the streaming_shell generator wrote %d bytes" % (where, len(sess.core.written) - before_written)})
             elif name == "stream-next":
